@@ -26,6 +26,10 @@ func (cp *CollectingProcess) startTCPServer() {
 			klog.Errorf("Cannot start tls collecting process on %s: %v", cp.address, err)
 			return
 		}
+		// Register the accept loop with the wait group before the address is published: a
+		// caller that observes a non-nil GetAddress() may call Stop right away, and Stop
+		// must then wait for the accept loop (and for the listener to be closed).
+		cp.wg.Add(1)
 		cp.updateAddress(listener.Addr())
 		klog.Infof("Started TLS collecting process on %s", cp.netAddress)
 	} else {
@@ -35,11 +39,12 @@ func (cp *CollectingProcess) startTCPServer() {
 			klog.Errorf("Cannot start collecting process on %s: %v", cp.address, err)
 			return
 		}
+		// See above: wg.Add must happen before the address is published.
+		cp.wg.Add(1)
 		cp.updateAddress(listener.Addr())
 		klog.Infof("Start TCP collecting process on %s", cp.netAddress)
 	}
 
-	cp.wg.Add(1)
 	go func(stopCh chan struct{}) {
 		defer cp.wg.Done()
 		for {
